@@ -49,8 +49,16 @@ func escape(b *bytes.Buffer, r rune, force bool) {
 			b.WriteString(s)
 			break
 		}
+		if r > 0xFFFF {
+			// \u takes exactly four hex digits; a non-printable rune beyond the BMP has no
+			// escape that every dialect reads back, and it is literal as it stands
+			b.WriteRune(r)
+			break
+		}
 		b.WriteString(`\u`)
-		b.WriteString(strconv.FormatInt(int64(r), 16))
+		s := strconv.FormatInt(int64(r), 16)
+		b.WriteString(strings.Repeat("0", 4-len(s)))
+		b.WriteString(s)
 	}
 }
 
